@@ -19,8 +19,13 @@ import (
 // Input is a named module text.
 type Input struct {
 	Name   string
-	Origin string // "testdata", "llvm-stress", "opt", "clang"
+	Origin string // "testdata", "llvm-stress", "opt", "clang", "tlc:<spec>/<family>"
 	Text   string
+	// Construct names the construct under test for generated inputs ("" for corpora).
+	Construct string
+	// Unrepresentable is set for generated inputs whose construct the library's IR cannot hold:
+	// the required outcome is an error (no crash, no silently altered module).
+	Unrepresentable bool
 }
 
 // Testdata returns the .ll files shipped with the repository.
